@@ -7,6 +7,8 @@ use serde::{Deserialize, Serialize};
 
 use crate::kernel::{Outcome, PropertySpec, Rng, RunCtx, Scenario, Tier};
 use crate::world::gen::{gen_prog, gen_state, ProgKnobs, StateSpec};
+use crate::world::ids;
+use crate::world::prog::{Decl, Prog, Step, Val, N};
 use crate::world::rules::N_RULES;
 use crate::world::tick::{ref_tick, run_tick, Cand, CommitObs, EngineCfg, RefTick, TickObs, TickResult};
 
@@ -73,6 +75,44 @@ pub fn gen_tick(rng: &mut Rng, avoid: bool, big: bool, n_small: usize) -> (State
         state.insts[0].filler = Some((1000, count, m));
         for k in 1000..1000 + count {
             cands.push(Cand { rule: 0, w: 0, k, shard: (k % u16::from(m)) as u8 });
+        }
+        // Adversarial keys on the engine path: scope hashes are BLAKE3 outputs, so search the scope-id
+        // space for two candidates whose scope hashes share the longest prefix (a birthday search over
+        // ~130k ids finds 3-4 equal leading bytes) and give them conflicting programs, so that any sort
+        // that does not realise the full byte order shows up in the receipt and in the conflict winner.
+        if rng.chance(3, 4) {
+            let rid = crate::world::rules::rule_id(0);
+            let mut hs: Vec<([u8; 32], u16, u8)> = Vec::with_capacity(131_072);
+            let base = rng.below(4) as u16 * 16_384;
+            for k in base..base.saturating_add(16_384) {
+                if (1000..1000 + count).contains(&k) || k < 64 {
+                    continue;
+                }
+                for shard in 0..8u8 {
+                    let key = warp_core::NodeKey { warp_id: ids::warp(0), local_id: ids::pnode(k, shard) };
+                    hs.push((warp_core::scope_hash(&rid, &key), k, shard));
+                }
+            }
+            hs.sort();
+            let mut best = (0usize, 0usize);
+            for i in 0..hs.len().saturating_sub(1) {
+                let l = hs[i].0.iter().zip(hs[i + 1].0.iter()).take_while(|(a, b)| a == b).count();
+                if l > best.0 && hs[i].1 != hs[i + 1].1 {
+                    best = (l, i);
+                }
+            }
+            if best.0 >= 2 {
+                for (j, (_, k, shard)) in [hs[best.1], hs[best.1 + 1]].iter().enumerate() {
+                    let prog = Prog {
+                        rule: 0,
+                        nonce: 0x7000_0000 + j as u32,
+                        steps: vec![Step::UpsertNode { n: N::D(7), ty: j as u8 }, Step::SetNodeAtt { n: N::D(7), val: Some(Val { ty: 0, bytes: vec![b'x', j as u8] }) }],
+                        decl: Decl::Honest,
+                    };
+                    state.insts[0].progs.push((*k, *shard, prog));
+                    cands.push(Cand { rule: 0, w: 0, k: *k, shard: *shard });
+                }
+            }
         }
     }
     (state, cands)
@@ -336,6 +376,13 @@ pub fn check_against_reference(pre: &crate::model::refstate::RefState, reference
             }
             if c.receipt.blocked_by != reference.blockers {
                 return Err(Outcome::violation("reference_mismatch:blockers", format!("engine {:?} reference {:?}", c.receipt.blocked_by, reference.blockers)));
+            }
+            // independent second implementation of the state root (columnar accumulator, hook H4)
+            if let Some(engine) = obs.engine.as_ref() {
+                let acc = warp_core::verif::accumulator_state_root(engine.state(), &engine.root_key());
+                if acc != c.state_root {
+                    return Err(Outcome::violation("committed_state_root_disagrees_with_accumulator", format!("snapshot {} accumulator {}", hex::encode(c.state_root), hex::encode(acc))));
+                }
             }
             match &reference.post {
                 Ok(post) => {
